@@ -145,7 +145,7 @@ func propC07(c *Ctx) int {
 			Stubs: []string{"rune"}, PanicIsViolation: false, MaxPaths: 2000000, Timeout: 30 * time.Minute, AllowDrops: []string{"on symbolic operand"}})
 	}
 	return c.Finish("model_checking", []string{
-		"errors inside schema bodies (HBodyError): an invalid byte (symbolic choice of byte and property) in the body of TYPE / Query / Headers / Path / Request / response / Params / Result / Body — directive kind and placement (root, INCLUDEd file, pasted MACRO body) symbolic — is reported in the file that holds the body at the index of that byte with its line, column and quote; mode 1: the same with a well-formed body that references an undefined type (error raised when the catalog is compiled: index = the reference; for Path, whose checks run after all bodies, the Path keyword)",
+		"errors inside schema bodies (HBodyError): an invalid byte (symbolic choice of byte and property) in the body of TYPE / Query / Headers / Path / Request / response / Params / Result / Body — directive kind, placement (root, INCLUDEd file, pasted MACRO body) and the line-end convention of the project (LF / CRLF / CR) symbolic — is reported in the file that holds the body at the index of that byte with its line, column and quote; mode 1: the same with a well-formed body that references an undefined type (error raised when the catalog is compiled: index = the reference; for Path, whose checks run after all bodies, the Path keyword)",
 		"cycle of user types (HTypeCycleError): @b -> @c -> @d -> @b with optional references, a rule violation in a symbolic non-empty subset of the members (members distinguishable by key length and bound), definition order and the presence of an ENUM symbolic: the error is on the line of a faulty member's faulty property",
 		"long lines (HLocationLong): first line of 198..203 / 320 bytes with 2+2 arbitrary bytes, index symbolic over 30 boundary positions (file start, byte 100, the 197/200-byte cut, line end, file end and past it): no panic, exact line/column, quote = the line cut to 197 bytes + \"...\" above 200 bytes",
 		"include trace: root.jst with two INCLUDEs (targets symbolic over {a,b}), a and b include c at different lines; error raised in c during scanning (live stack) and after scanning (directive include tracer); variant 2: failing root directive right before an INCLUDE (no trace); variants 3/4: failing directive that FOLLOWS a nested INCLUDE inside the included file, scan-time and compile-time (the nested file must be gone from the trace): the rendered trace must be [error file:line, includer:line of its INCLUDE, root:line of the INCLUDE followed]",
@@ -615,7 +615,7 @@ func propC03(c *Ctx) int {
 	base := Job{Pkg: "core", Stubs: []string{"rune"}, PanicIsViolation: true, MaxPaths: 100000, Timeout: time.Hour, MaxSteps: 8000000, MaxDepth: 1000}
 	{
 		j := base
-		j.Name, j.Fn, j.MustReach = "fault catalogue x placement", "HFault", []string{"fault-rejected"}
+		j.Name, j.Fn, j.MustReach = "fault catalogue x placement x line ends", "HFault", []string{"fault-rejected"}
 		c.RunJob(j)
 	}
 	{
@@ -629,7 +629,7 @@ func propC03(c *Ctx) int {
 		c.RunJob(j)
 	}
 	return c.Finish("model_checking", []string{
-		"fault catalogue (harness/core/zz_verif_c03.go, 52 classes: duplicate interaction/type/enum/server/tag/macro/OperationId, similar and duplicated path parameters, second Title/Version/Description/Query/Request body/Headers/BaseUrl/Protocol, undefined type/tag/macro, missing required parameter, forbidden annotation, JSIGHT repeated, Type+SchemaNotation, Method without Protocol, request/response with Headers but without a body) injected into a valid document; fault class and placement (root file / INCLUDEd file / pasted MACRO body) are symbolic; oracle: rejected, message of that class, located in the file and on the line of the offending directive (real jerr.NewLocation, no contract stub)",
+		"fault catalogue (harness/core/zz_verif_c03.go, 58 classes, each under LF / CRLF / CR line ends of the whole project: duplicate interaction/type/enum/server/tag/macro/OperationId, similar and duplicated path parameters, second Title/Version/Description/Query/Request body/Headers/BaseUrl/Protocol, undefined type/tag/macro, missing required parameter, forbidden annotation, JSIGHT repeated, Type+SchemaNotation, Method without Protocol, request/response with Headers but without a body) injected into a valid document; fault class and placement (root file / INCLUDEd file / pasted MACRO body) are symbolic; oracle: rejected, message of that class, located in the file and on the line of the offending directive (real jerr.NewLocation, no contract stub)",
 		"symbolic names: a TYPE/ENUM/SERVER/TAG/MACRO/OperationId/method path with a symbolic two-byte name is appended: rejected as duplicate on that directive exactly when the name equals the existing name of its kind (the solver finds the equal-name case), accepted otherwise",
 		"outside: faults crossed with layouts (C08), rule/example mismatches inside schemas (jsight-schema-core)",
 		"JSIGHT missing, not first, without version, with a wrong (symbolic) version: rejected on line 1",
@@ -683,7 +683,7 @@ func propC02(c *Ctx) int {
 	c.Log("model round-trips reached: %d", reached)
 	return c.Finish("model_checking", []string{
 		"abstract model (harness/core/zz_verif_c02.go): INFO (title, version, description), up to two SERVERs, TAGs, TYPEs (jsight and regex), ENUMs, an optional JSON-RPC method (Params / Result / Description / Tags variants), 1..2 HTTP interactions (all five methods x path pool, request with Headers and Body in either order, response bodies any / @type / [@type] / inline schema, own Tags / URL-level Tags / path tag, annotation, description, query, request none/any/schema/headers+body, OperationId, Tags or path tag, 1..2 responses in either order with any/@type/inline schema bodies, response headers and annotations), rendered with URL grouping or stand-alone methods, explicit ( ) or implicit contexts, // or /* */ annotations",
-		fmt.Sprintf("9 feature groups (tags: declared tags x own (one or two, either order) / URL-level Tags x grouping x paths; entities; responses; request/description/query (none, body, noFormat, example, example+noFormat, htmlFormEncoded); grouping/explicit contexts; second interaction; JSON-RPC x tags; method x path x query x enums; LAYOUT of the rendering x grouping x explicit contexts x annotation style x entities: as rendered / CRLF / CR / comments, blank lines and block comments before top-level directives / definitions moved into an INCLUDEd file in a sub-directory / all interactions moved into a MACRO pasted at root / quoted paths) are made symbolic together with seeded settings of the rest; in addition each mask job makes %d (1 interaction) / %d (2 interactions) of the ~38/60 feature choices symbolic (seeded selection, the solver explores all their combinations) and fixes the rest (seeded); %d+%d jobs this run; the expected catalog digest — including, for every schema and enum, the content tree / rules / notes / used types that the JSON emitter hands to encoding/json (vDigestDeep) — is computed from the model alone and compared entry by entry (nothing missing, nothing invented, order, attachment to the right interaction/response), followed by the C05 closure invariants", bits1, bits2, jobs1, jobs2),
+		fmt.Sprintf("9 feature groups (tags: declared tags x own (one or two, either order) / URL-level Tags x grouping x paths; entities; responses; request/description/query (none, body, noFormat, example, example+noFormat, htmlFormEncoded); grouping/explicit contexts; second interaction; JSON-RPC x tags; method x path x query x enums; LAYOUT of the rendering x grouping x explicit contexts x annotation style x entities: as rendered / CRLF / CR / comments, blank lines and block comments before top-level directives / definitions moved into an INCLUDEd file in a sub-directory / all interactions moved into a MACRO pasted at root / quoted paths / every line indented by a tab and a blank) are made symbolic together with seeded settings of the rest; in addition each mask job makes %d (1 interaction) / %d (2 interactions) of the ~38/60 feature choices symbolic (seeded selection, the solver explores all their combinations) and fixes the rest (seeded); %d+%d jobs this run; the expected catalog digest — including, for every schema and enum, the content tree / rules / notes / used types that the JSON emitter hands to encoding/json (vDigestDeep) — is computed from the model alone and compared entry by entry (nothing missing, nothing invented, order, attachment to the right interaction/response), followed by the C05 closure invariants", bits1, bits2, jobs1, jobs2),
 		"outside: JSON emission (encoding/json), more than two HTTP interactions + one JSON-RPC method, combinations of more feature choices than the symbolic ones of a job, MACRO/PASTE and INCLUDE renderings (covered relationally by C10/C09), layout variants (C08)",
 		contractLoc, contractRune,
 	}, map[string]interface{}{"model_roundtrips": reached})
